@@ -88,6 +88,29 @@ static bool checkParse(const vector<unsigned char>& esc, bool log) {
   if (ok) return r == RESULT_OK && got == want;
   return r != RESULT_OK;
 }
+// "Parse the (escaped) hex string and ADD all symbols" (symbol.h): parsing onto a string that already holds symbols -
+// also unescaped A9/AA symbols - appends exactly the parsed symbols and leaves the stored ones alone; acceptance does
+// not depend on what is already stored.  kind: 0 master/escaped, 1 slave/escaped, 2 master/plain hex, 3 slave/plain hex
+static bool checkAppend(const vector<unsigned char>& prefix, const vector<unsigned char>& str, int kind, bool log) {
+  vector<unsigned char> want;
+  bool escaped = kind < 2;
+  bool ok = true;
+  if (escaped) ok = refUnescape(str, &want); else want = str;
+  MasterSymbolString ms;
+  SlaveSymbolString ss;
+  SymbolString* t = (kind & 1) ? static_cast<SymbolString*>(&ss) : static_cast<SymbolString*>(&ms);
+  for (unsigned char c : prefix) t->push_back(c);
+  result_t r = escaped ? t->parseHexEscaped(hx(str)) : t->parseHex(hx(str));
+  vector<unsigned char> got(t->data(), t->data() + t->size());
+  vector<unsigned char> full = prefix;
+  full.insert(full.end(), want.begin(), want.end());
+  unsigned crcImpl = t->calcCrc(), crcRef = refCrc(full);
+  if (log) printf("%s string holding [%s], %s(%s): impl=%d [%s] crc=%02x; reference %s [%s] crc=%02x\n", (kind & 1) ? "slave" : "master",
+                  hx(prefix).c_str(), escaped ? "parseHexEscaped" : "parseHex", hx(str).c_str(), r, hx(got).c_str(), crcImpl,
+                  ok ? "ok" : "reject", hx(full).c_str(), crcRef);
+  if (!ok) return r != RESULT_OK;
+  return r == RESULT_OK && got == full && crcImpl == crcRef;
+}
 static bool checkRoundTrip(const vector<unsigned char>& raw, bool log) {
   MasterSymbolString m;
   result_t r = m.parseHexEscaped(hx(refEscape(raw)));
@@ -167,6 +190,7 @@ static int replay(const string& c) {
   else if (k == "calc") ok = checkCalc(bytes(m["raw"]), true);
   else if (k == "parse") ok = checkParse(bytes(m["esc"]), true);
   else if (k == "rt") ok = checkRoundTrip(bytes(m["raw"]), true);
+  else if (k == "append") ok = checkAppend(bytes(m["pre"]), bytes(m["str"]), atoi(m["kind"].c_str()), true);
   else if (k == "addr") { unsigned a = strtoul(m["a"].c_str(), 0, 16); string r = checkAddr(a); printf("%s rule=%s\n", addrFacts(a).c_str(), r.c_str()); ok = r.empty(); }
   else if (k == "addrglobal") { string r = checkAddrGlobal(); printf("global rule=%s\n", r.c_str()); ok = r.empty(); }
   printf(ok ? "OK\n" : "VIOLATES\n");
@@ -236,6 +260,27 @@ int main(int argc, char** argv) {
   }
   enumStrings(special, L, escCase);
   R.sample("parseHexEscaped e.g. 'a9' dangling, 'aa' bare, 'a902' invalid pair, 'a900a901' -> a9aa");
+  // 5. parsing appends: every stored prefix of length<=2 (thorough 3) over the special alphabet x every string of length<=3
+  //    (thorough 4) over it, escaped and plain, master and slave strings
+  {
+    vector<vector<unsigned char>> prefixes, strs;
+    enumStrings(special, A.thorough() ? 3 : 2, [&](const vector<unsigned char>& x) { prefixes.push_back(x); });
+    enumStrings(special, A.thorough() ? 4 : 3, [&](const vector<unsigned char>& x) { strs.push_back(x); });
+    for (auto& pre : prefixes) for (auto& st : strs) for (int kind = 0; kind < 4; kind++) {
+      R.evaluations++;
+      R.distinct(vp::fnv(st.data(), st.size(), vp::fnv(pre.data(), pre.size(), 1234 + kind)));
+      if (!checkAppend(pre, st, kind, false)) {
+        vector<unsigned char> w; bool ok = kind >= 2 || refUnescape(st, &w);
+        bool special = false;
+        for (unsigned char c : pre) if (c == 0xA9 || c == 0xAA) special = true;
+        R.violation(string("C11/parse-append/") + (kind < 2 ? "escaped" : "plain") + (ok ? "/valid-mishandled" : "/invalid-accepted") +
+                    (pre.empty() ? "/fresh" : special ? "/stored-a9aa" : "/stored-other"),
+                    "parsing onto a string that already holds symbols does not append exactly the parsed symbols",
+                    "k=append;kind=" + std::to_string(kind) + ";pre=" + hx(pre) + ";str=" + hx(st));
+      }
+    }
+    R.sample("append e.g. string holding [a9] + parseHexEscaped('00') -> [a9 00]; [10 aa] + parseHex('a9') -> [10 aa a9]");
+  }
   R.write(A.out);
   return 0;
 }
